@@ -18,6 +18,7 @@ import (
 	"github.com/openconfig/ygot/verifharness/model"
 	"github.com/openconfig/ygot/ygot"
 	"github.com/openconfig/ygot/ytypes"
+	"google.golang.org/protobuf/encoding/protojson"
 	"google.golang.org/protobuf/encoding/prototext"
 	"google.golang.org/protobuf/proto"
 	"verifsim/simrt"
@@ -79,6 +80,7 @@ type c21World struct {
 	paths  []string      // pool of paths (existing and absent) for getnode
 	// shared input messages
 	tvs   []c21TV
+	jtvs  []c21TV // JSON-IETF payloads addressed at containers and list entries
 	docs  [][]byte
 	// jtrees are docs[0..2] decoded once: the decoded JSON value handed to ytypes.Unmarshal
 	// is an input message shared by every task that unmarshals it
@@ -282,6 +284,41 @@ func buildWorld(c *c21Case) *c21World {
 		}
 		w.reqs = append(w.reqs, req)
 	}
+	// requests as C13 generates them (deletes, replaces and updates at leaf, leaf-list,
+	// container, list-entry and ordered-list targets, scalar and JSON-IETF payloads, optional
+	// prefix); their JSON payloads at container / list-entry paths also join the pool of
+	// values SetNode is called with
+	ts := &treeState{p: w.p, sch: w.sch, root: T3, g: g, st: newStats()}
+	rv := simrt.NewRng(simrt.Mix(c.Seed, 4))
+	pp := tp
+	pp.MaxList = 2
+	vg := gen.New(&rv, pp)
+	for i := 0; i < 5; i++ {
+		op, ok := c13Draw(&r, vg, ts, false)
+		if !ok || op.K != "setreq" {
+			continue
+		}
+		req := &gpb.SetRequest{}
+		if protojson.Unmarshal([]byte(op.arg("req")), req) != nil {
+			continue
+		}
+		if req.Prefix != nil {
+			// spare capacity, as a slice grown by append or decoded from the wire has
+			req.Prefix.Elem = append(make([]*gpb.PathElem, 0, len(req.Prefix.Elem)+6), req.Prefix.Elem...)
+		}
+		w.reqs = append(w.reqs, req)
+		for _, u := range append(append([]*gpb.Update{}, req.Replace...), req.Update...) {
+			if _, isJSON := u.Val.GetValue().(*gpb.TypedValue_JsonIetfVal); !isJSON {
+				continue
+			}
+			full := &gpb.Path{}
+			if req.Prefix != nil {
+				full.Elem = append(full.Elem, req.Prefix.Elem...)
+			}
+			full.Elem = append(full.Elem, u.Path.Elem...)
+			w.jtvs = append(w.jtvs, c21TV{path: full, tv: u.Val})
+		}
+	}
 	for i := 0; i < len(c.Tasks); i++ {
 		w.roots = append(w.roots, g.Tree(w.p.RootType(), w.sch).(ygot.GoStruct))
 	}
@@ -334,7 +371,7 @@ func factorPrefix(req *gpb.SetRequest, whole bool) {
 }
 
 var c21ReadOps = []string{"validate", "validate-leafref", "emitjson", "emitjson-rfc", "marshal7951", "construct", "tognmi", "tognmi-slice", "getnode", "getnode-wild", "diff", "diffatomic", "deepcopy", "encodetv", "evict"}
-var c21WriteOps = []string{"unmarshal", "unmarshal", "unmarshal-tree", "setnode", "setnode", "setnode-tol", "setreq", "setreq", "unmarshal-bad", "setnode-bad", "evict"}
+var c21WriteOps = []string{"unmarshal", "unmarshal", "unmarshal-tree", "setnode", "setnode", "setnode-json", "setnode-tol", "setreq", "setreq", "unmarshal-bad", "setnode-bad", "evict"}
 
 func (p *c21Prop) genCase(seed uint64, tier string) *c21Case {
 	r := simrt.NewRng(simrt.Mix(seed, 21))
@@ -528,6 +565,13 @@ func (w *c21World) runOp(op Op, root ygot.GoStruct) string {
 				path = &gpb.Path{Elem: append(append([]*gpb.PathElem{}, e.path.Elem...), &gpb.PathElem{Name: "no-such-node"})}
 			}
 			out = normErr(ytypes.SetNode(w.sch, root, path, e.tv, opts...))
+		case "setnode-json":
+			if len(w.jtvs) == 0 {
+				out = "no values"
+				return
+			}
+			e := w.jtvs[pick(len(w.jtvs))]
+			out = normErr(ytypes.SetNode(w.sch, root, e.path, e.tv, &ytypes.InitMissingElements{}))
 		case "setreq":
 			if len(w.reqs) == 0 {
 				out = "no requests"
@@ -576,7 +620,7 @@ type c21TaskResult struct {
 func (w *c21World) isWriter(ops []Op) bool {
 	for _, o := range ops {
 		switch o.K {
-		case "unmarshal", "unmarshal-tree", "unmarshal-bad", "setnode", "setnode-tol", "setnode-bad", "setreq":
+		case "unmarshal", "unmarshal-tree", "unmarshal-bad", "setnode", "setnode-json", "setnode-tol", "setnode-bad", "setreq":
 			return true
 		}
 	}
